@@ -347,6 +347,16 @@ def run(ctx):
                      "whitespace was accepted", value=v, cls=Deb822.__name__)
             break
         text = d.dump()
+        # the other ways of writing the paragraph out produce the same text (so the same holds for them)
+        import io as _io
+        _fd = _io.BytesIO()
+        d.dump(_fd)
+        _ft = _io.StringIO()
+        d.dump(_ft, text_mode=True)
+        if _fd.getvalue().decode("utf-8") != text or _ft.getvalue() != text or str(d) != text:
+            t.failed("dump(fd) / dump(fd, text_mode=True) / str() differ from dump()", value=v, dump=text, cls=Deb822.__name__,
+                     dump_binary_file=_fd.getvalue().decode("utf-8", "replace"), dump_text_file=_ft.getvalue(), str=str(d))
+            break
         blank_cont = any(l.strip(" \t") == "" for l in spec_lines(v + "\n")[:-1][1:])
         settings = [{"whitespace-separates-paragraphs": False}] + ([] if blank_cont else [None])
         bad = False
